@@ -33,7 +33,7 @@ type MatCase struct {
 	Ops    []ops.Op    `json:"ops,omitempty"` // edit history applied to the (indexed) first tree before the matrix is computed
 }
 
-var historyKinds = []string{"reroot", "prune", "graft", "graft_tip_on_edge", "identical_one", "rename", "rename_auto", "shuffle_tips", "collapse_len", "resolve", "unroot", "rotate", "nni", "reinit", "scale_lengths"}
+var historyKinds = []string{"reroot", "prune", "graft", "graft_tip_on_edge", "identical_one", "rename", "rename_auto", "shuffle_tips", "collapse_len", "resolve", "unroot", "rotate", "nni", "reinit", "scale_lengths", "scale_lengths", "clear_lengths", "sort"}
 
 var metricOf = map[string][2]int{"brlen": {tree.DISTANCE_METRIC_BRLEN, ref.MetricLen}, "boot": {tree.DISTANCE_METRIC_BOOTS, ref.MetricSup}, "none": {tree.DISTANCE_METRIC_NONE, ref.MetricOne}}
 
@@ -109,6 +109,9 @@ func checkMat(c MatCase) error {
 		if err := t.ReinitIndexes(); err != nil {
 			return err
 		}
+		// the matrix was already asked for before the edits (same metric): the one computed after
+		// them must describe the edited tree
+		t.ToDistanceMatrix(gm)
 		st := ops.State{T: t}
 		for _, op := range c.Ops {
 			before := st.T.Newick()
